@@ -334,6 +334,49 @@ def model_json(E: Engine, model, env):
     return out
 
 
+def parallel_precheck(obls, nproc):
+    """discharge obligations in forked children (the ASTs are inherited by fork); returns {index: (status, backend, dt, txt)}
+    for those a child *discharged*; everything else is decided again, sequentially, by the parent (models, budgets)"""
+    import pickle
+    if nproc <= 1 or len(obls) < 4:
+        return {}
+    nproc = min(nproc, len(obls))
+    kids = []
+    for w in range(nproc):
+        r_fd, w_fd = os.pipe()
+        pid = os.fork()
+        if pid == 0:
+            os.close(r_fd)
+            out = []
+            try:
+                for i in range(w, len(obls), nproc):
+                    o = obls[i]
+                    try:
+                        status, model, backend, dt, txt, cand = check(o.pc, o.goal)
+                        if status == DISCHARGED:
+                            out.append((i, status, backend, dt, txt))
+                    except Exception:
+                        pass
+                data = pickle.dumps(out)
+                with os.fdopen(w_fd, "wb") as f:
+                    f.write(data)
+            finally:
+                os._exit(0)
+        os.close(w_fd)
+        kids.append((pid, r_fd))
+    done = {}
+    for pid, r_fd in kids:
+        with os.fdopen(r_fd, "rb") as f:
+            data = f.read()
+        os.waitpid(pid, 0)
+        try:
+            for i, status, backend, dt, txt in pickle.loads(data):
+                done[i] = (status, backend, dt, txt)
+        except Exception:
+            pass
+    return done
+
+
 def verify_function(key, prop_prefix="", replayer=None, only_labels=None, engine_cls=None) -> list[Result]:
     """Verify one repo function against its sidecar contract."""
     c = S.CONTRACTS[key]
@@ -389,14 +432,21 @@ def verify_function(key, prop_prefix="", replayer=None, only_labels=None, engine
             continue
         groups.setdefault((o.label, o.klass), []).append(o)
     undecided_time = [0.0]
+    flat = [o for obs in groups.values() for o in obs]
+    pre = parallel_precheck(flat, int(os.environ.get("VERIF_INNER_PAR", "1")))
+    pre_by_id = {id(flat[i]): v for i, v in pre.items()}
     for (label, klass), obs in groups.items():
         agg_status, agg_time, backends, outs = DISCHARGED, 0.0, set(), []
         witness, wit_obl, wmodel = None, None, None
         cand_model, cand_obl = None, None
         slow_left = 2 if undecided_time[0] < UNDECIDED_BUDGET_S else 0   # full-budget attempts per clause
         for o in obs:
-            status, model, backend, dt, txt, cand = check(o.pc, o.goal, timeout_ms=None if slow_left > 0 else 1500,
-                                                          quick=slow_left <= 0)
+            if id(o) in pre_by_id:
+                status, backend, dt, txt = pre_by_id[id(o)]
+                model = cand = None
+            else:
+                status, model, backend, dt, txt, cand = check(o.pc, o.goal, timeout_ms=None if slow_left > 0 else 1500,
+                                                              quick=slow_left <= 0)
             if status == UNDECIDED:
                 slow_left -= 1
                 undecided_time[0] += dt
